@@ -2,19 +2,12 @@
    reading of sync/atomic) is equal to the hand-written sequential model of Model/SyncRingSeq.v, function by function. *)
 From Coq Require Import List ZArith Lia Bool Arith.
 From V Require Import Lib.GoSem Lib.GoSemRec Proofs.GoSemFacts Proofs.GoSemRecFacts Gen.Ringz Gen.RingCode Gen.SyncRingCode
-  Model.RingSeq Model.SyncRingSeq Proofs.SyncRingCap Proofs.RingCode.
+  Model.RingSeq Model.SyncRingSeq Proofs.SyncRingCap Proofs.RingCode Run.C10SyncCode.
 Import ListNotations.
 Local Open Scope Z_scope.
 
-(* ---- the explicit, total conversions between the generated Records and the model's types *)
-Definition to_slot (e : item) : Z * Z := (item_value e, item_pos e).
-Definition of_slot (p : Z * Z) : item := mkitem (fst p) (snd p).
-Definition to_sring (r : SyncRing) : sring :=
-  {| slots := map to_slot (SyncRing_values r); shead := SyncRing_head r; stail := SyncRing_tail r;
-     scap := SyncRing_cap r; smask := SyncRing_mask r |}.
-Definition of_sring (r : sring) : SyncRing :=
-  mkSyncRing (map of_slot (slots r)) (scap r) (smask r) (shead r) (stail r).
-
+(* ---- the explicit, total conversions between the generated Records and the model's types: to_slot / of_slot, to_sring /
+   of_sring (defined in Run/C10SyncCode.v, which needs them for the counter injection and the Dump) are bijections *)
 Lemma of_to_slot e : of_slot (to_slot e) = e. Proof. destruct e; reflexivity. Qed.
 Lemma to_of_slot p : to_slot (of_slot p) = p. Proof. destruct p; reflexivity. Qed.
 Lemma map_of_to l : map of_slot (map to_slot l) = l.
